@@ -582,17 +582,17 @@ open Gorm.Attrs
     column is in the RETURNING list Create builds when the dialector supports RETURNING.  Nothing is assumed about
     `Creatable` / `Updatable` / `Readable`: a read-only (`->`), update-only (`<-:update`) or `<-:false` column with a
     database default is read back exactly like a writable one. -/
-theorem C03_db_default_returned_any_permission (d : Decl) (i : Nat) (f : AField)
-    (hf : nth? (parseDecl d).fields i = some f)
+theorem C03_db_default_returned_any_permission (k : Bool) (d : Decl) (i : Nat) (f : AField)
+    (hf : nth? (parseDecl k d).fields i = some f)
     (htyped : f.typed = true) (hdef : f.hasDefault = true) (hdb : f.defaultIface = none) :
-    i ∈ (parseDecl d).withDefaultDB ∧
-    ∃ l, returningList true (parseDecl d) = some l ∧ f.dbName ∈ l := by
+    i ∈ (parseDecl k d).withDefaultDB ∧
+    ∃ l, returningList true (parseDecl k d) = some l ∧ f.dbName ∈ l := by
   have hd : f.dbDefault = true := by simp [AField.dbDefault, htyped, hdef, hdb]
-  have hi : i ∈ (parseDecl d).withDefaultDB := defaultsStep_lists_dbDefault _ _ i f hf hd
-  refine ⟨hi, withDefaultNames (parseDecl d), ?_, ?_⟩
+  have hi : i ∈ (parseDecl k d).withDefaultDB := defaultsStep_lists_dbDefault _ _ i f hf hd
+  refine ⟨hi, withDefaultNames (parseDecl k d), ?_, ?_⟩
   · unfold returningList
-    have hne : (parseDecl d).withDefaultDB.isEmpty = false := by
-      cases hw : (parseDecl d).withDefaultDB with
+    have hne : (parseDecl k d).withDefaultDB.isEmpty = false := by
+      cases hw : (parseDecl k d).withDefaultDB with
       | nil => rw [hw] at hi; cases hi
       | cons a l => rfl
     simp [hne]
@@ -601,108 +601,154 @@ theorem C03_db_default_returned_any_permission (d : Decl) (i : Nat) (f : AField)
 
 /-- non-vacuity (the shape of the seeded fault class): `ID int64 column:parcel_no`, a READ-ONLY `Serial` with a
     DB-expression default, a writable `Batch` with the same default — both defaults and the key are asked back, the
-    read-only column is not in the INSERT -/
-example :
+    read-only column is not in the INSERT (with and without the repair of F28) -/
+example (k : Bool) :
     let d : Decl := .leaf ⟨"ID", .int, "column:parcel_no", "id", false, false⟩
       (.leaf ⟨"Serial", .string, "->;default:(lower(hex(randomblob(6))))", "serial", false, false⟩
       (.leaf ⟨"Batch", .string, "default:(lower(hex(randomblob(6))))", "batch", false, false⟩ .nil))
-    returningList true (parseDecl d) = some ["serial", "batch", "parcel_no"] ∧
-    insertColsA true (parseDecl d) (fun _ => true) = ["batch", "parcel_no"] ∧
-    (parseDecl d).prioritized = some 0 := by decide
+    returningList true (parseDecl k d) = some ["serial", "batch", "parcel_no"] ∧
+    insertColsA true (parseDecl k d) (fun _ => true) = ["batch", "parcel_no"] ∧
+    (parseDecl k d).prioritized = some 0 := by cases k <;> decide
 
 /-- THE FIELD NAMED `ID` IS THE KEY, WHATEVER ITS COLUMN IS CALLED.  For every list of parsed fields (top-level and
     embedded, any tags): if exactly one field carries the Go name `ID`, no field is tagged `primaryKey`, and no OTHER
     field owns a column spelled `id` / `ID` (nor is some field named `id`), then the schema-level steps make that field the
-    prioritized primary field and the only primary field — its column name plays no role (`column:parcel_no`). -/
-theorem C03_id_field_is_key_any_column (fs0 : List AField) (i : Nat) (f : AField)
-    (hf : (nameCols fs0)[i]? = some f) (hname : f.name = "ID")
+    prioritized primary field and the only primary field — its column name plays no role (`column:parcel_no`).  `k` = the
+    regenerated fact `Gen.priorityNeedsColumn` (is the repair of F28 in the tree?): with the repair the field must HAVE a
+    column (`hcol`), under whatever name. -/
+theorem C03_id_field_is_key_any_column (k : Bool) (fs0 : List AField) (i : Nat) (f : AField)
+    (hf : (nameCols fs0)[i]? = some f) (hname : f.name = "ID") (hcol : k = true → f.dbName ≠ "")
     (huniq : ∀ (j : Nat) (g : AField), (nameCols fs0)[j]? = some g → g.name = "ID" → j = i)
     (hnoid : ∀ (j : Nat) (g : AField), (nameCols fs0)[j]? = some g → g.name ≠ "id")
     (hcols : ∀ (j : Nat) (g : AField), (nameCols fs0)[j]? = some g → j ≠ i → g.dbName ≠ "id" ∧ g.dbName ≠ "ID")
     (hnopk : ∀ (j : Nat) (g : AField), (nameCols fs0)[j]? = some g → g.primaryKey = false) :
-    (finish fs0).prioritized = some i ∧ (finish fs0).primaryFields = [i] := by
-  obtain ⟨h1, h2, _⟩ := prioritize_id_field (nameCols fs0) i f hf hname huniq hnoid hcols hnopk
+    (finish k fs0).prioritized = some i ∧ (finish k fs0).primaryFields = [i] := by
+  obtain ⟨h1, h2, _⟩ := prioritize_id_field k (nameCols fs0) i f hf hname hcol huniq hnoid hcols hnopk
   exact ⟨h1, h2⟩
 
 /-- … and when that key is backed by a column (it does not carry `-`: the negation of finding F28's pattern), is of an
     integer kind and has no `autoIncrement` tag, it is a database-generated key: `HasDefaultValue` / `AutoIncrement` are
     inferred and the key is in `FieldsWithDefaultDBValue`, hence its column — under whatever name — is in Create's
     RETURNING list. -/
-theorem C03_id_key_returned_partial (fs0 : List AField) (i : Nat) (f : AField)
-    (hf : (nameCols fs0)[i]? = some f) (hname : f.name = "ID")
+theorem C03_id_key_returned_partial (k : Bool) (fs0 : List AField) (i : Nat) (f : AField)
+    (hf : (nameCols fs0)[i]? = some f) (hname : f.name = "ID") (hcol : k = true → f.dbName ≠ "")
     (huniq : ∀ (j : Nat) (g : AField), (nameCols fs0)[j]? = some g → g.name = "ID" → j = i)
     (hnoid : ∀ (j : Nat) (g : AField), (nameCols fs0)[j]? = some g → g.name ≠ "id")
     (hcols : ∀ (j : Nat) (g : AField), (nameCols fs0)[j]? = some g → j ≠ i → g.dbName ≠ "id" ∧ g.dbName ≠ "ID")
     (hnopk : ∀ (j : Nat) (g : AField), (nameCols fs0)[j]? = some g → g.primaryKey = false)
     (htyped : f.typed = true) (hint : f.gormDT = .int ∨ f.gormDT = .uint) (hnotag : hasTag f.tags "AUTOINCREMENT" = false) :
-    i ∈ (finish fs0).withDefaultDB ∧
-    nth? (finish fs0).fields i = some { f with primaryKey := true, hasDefault := true, autoInc := true } ∧
-    ∃ l, returningList true (finish fs0) = some l ∧ f.dbName ∈ l := by
-  obtain ⟨h1, _, h3⟩ := prioritize_id_field (nameCols fs0) i f hf hname huniq hnoid hcols hnopk
+    i ∈ (finish k fs0).withDefaultDB ∧
+    nth? (finish k fs0).fields i = some { f with primaryKey := true, hasDefault := true, autoInc := true } ∧
+    ∃ l, returningList true (finish k fs0) = some l ∧ f.dbName ∈ l := by
+  obtain ⟨h1, _, h3⟩ := prioritize_id_field k (nameCols fs0) i f hf hname hcol huniq hnoid hcols hnopk
   have hn : nth? (nameCols fs0) i = some f := by rw [nth?_eq_getElem?]; exact hf
   have hn' : nth? (setNth (nameCols fs0) i { f with primaryKey := true }) i = some { f with primaryKey := true } := by
     rw [nth?_setNth]; simp [hn]
   obtain ⟨hm, hfield⟩ := defaultsStep_lists_int_key _ i { f with primaryKey := true } hn' htyped hint hnotag
-  have hfin : (finish fs0).withDefaultDB =
+  have hfin : (finish k fs0).withDefaultDB =
       (defaultsStep (setNth (nameCols fs0) i { f with primaryKey := true }) (some i)).2 := by
     show (defaultsStep _ _).2 = _
     rw [h3, h1]
-  have hfin2 : (finish fs0).fields =
+  have hfin2 : (finish k fs0).fields =
       (defaultsStep (setNth (nameCols fs0) i { f with primaryKey := true }) (some i)).1 := by
     show (defaultsStep _ _).1 = _
     rw [h3, h1]
-  have hi : i ∈ (finish fs0).withDefaultDB := by rw [hfin]; exact hm
-  have hfld : nth? (finish fs0).fields i = some { f with primaryKey := true, hasDefault := true, autoInc := true } := by
+  have hi : i ∈ (finish k fs0).withDefaultDB := by rw [hfin]; exact hm
+  have hfld : nth? (finish k fs0).fields i = some { f with primaryKey := true, hasDefault := true, autoInc := true } := by
     rw [hfin2]; exact hfield
-  refine ⟨hi, hfld, withDefaultNames (finish fs0), ?_, ?_⟩
+  refine ⟨hi, hfld, withDefaultNames (finish k fs0), ?_, ?_⟩
   · unfold returningList
-    have hne : (finish fs0).withDefaultDB.isEmpty = false := by
-      cases hw : (finish fs0).withDefaultDB with
+    have hne : (finish k fs0).withDefaultDB.isEmpty = false := by
+      cases hw : (finish k fs0).withDefaultDB with
       | nil => rw [hw] at hi; cases hi
       | cons a l => rfl
     simp [hne]
   · unfold withDefaultNames
     exact List.mem_filterMap.mpr ⟨i, hi, by rw [hfld]; rfl⟩
 
-/-- finding F28 (reproduced on the unchanged tree: AutoMigrate and Create fail with a syntax error): the hypothesis
-    "backed by a column" is needed — an IGNORED field named `ID` (`gorm:"-"`) is still made the prioritized primary key and
-    is listed in `FieldsWithDefaultDBValue` with an EMPTY column name, which Create puts into RETURNING. -/
+/-- finding F28 (reproduced on the unchanged tree: AutoMigrate and Create fail with a syntax error) — the model of the
+    UNREPAIRED conventional-key block (`needCol = false`): the hypothesis "backed by a column" is needed — an IGNORED field
+    named `ID` (`gorm:"-"`) is still made the prioritized primary key and is listed in `FieldsWithDefaultDBValue` with an
+    EMPTY column name, which Create puts into RETURNING. -/
 theorem C03_ignored_id_counterexample :
     let d : Decl := .leaf ⟨"ID", .int, "-", "id", false, false⟩ (.leaf ⟨"Name", .string, "", "name", false, false⟩ .nil)
-    (parseDecl d).prioritized = some 0 ∧ (parseDecl d).primaryFields = [0] ∧
-    ((nth? (parseDecl d).fields 0).map (fun f => (f.typed, f.dbName))) = some (false, "") ∧
-    returningList true (parseDecl d) = some [""] := by decide
+    (parseDecl false d).prioritized = some 0 ∧ (parseDecl false d).primaryFields = [0] ∧
+    ((nth? (parseDecl false d).fields 0).map (fun f => (f.typed, f.dbName))) = some (false, "") ∧
+    returningList true (parseDecl false d) = some [""] := by decide
+
+/-- FULL STRENGTH, F28 repaired (`needCol = true`: the conventional-key block demands `DBName != ""`, fixes/F28-C03-…patch):
+    for EVERY list of parsed fields — any tags, any embedding, any key convention — the prioritized primary field, when
+    there is one, is backed by a column: Create's RETURNING, the LastInsertId back-fill and AutoMigrate's PRIMARY KEY clause
+    are never built around an empty column name.  No hypothesis about `-` is left. -/
+theorem C03_prioritized_key_has_column (fs0 : List AField) (i : Nat)
+    (h : (finish true fs0).prioritized = some i) :
+    ∃ f, nth? (finish true fs0).fields i = some f ∧ f.dbName ≠ "" := by
+  have hprims : ∀ j ∈ primsFrom (nameCols fs0) 0 (nameCols fs0) {} [], hasColumn (nameCols fs0) j = true :=
+    primsFrom_cols (nameCols fs0) (nameCols fs0) 0 {} [] (fun k f hk => by simpa using hk) (fun j hj => by cases hj)
+  have hc := prioritize_has_column (nameCols fs0) (parseReg ((nameCols fs0).map toPField)) _ hprims i h
+  have hc2 : hasColumn (finish true fs0).fields i = true := by
+    show hasColumn (defaultsStep _ _).1 i = true
+    rw [hasColumn_defaultsStep]; exact hc
+  unfold hasColumn at hc2
+  cases hn : nth? (finish true fs0).fields i with
+  | none => rw [hn] at hc2; cases hc2
+  | some f => rw [hn] at hc2; exact ⟨f, rfl, by simpa using hc2⟩
+
+/-- … and the former witness: with the repair, a model whose only `ID` is ignored has NO primary key, as if the field did
+    not exist — nothing is asked back, the INSERT lists the remaining column -/
+theorem C03_ignored_id_repaired :
+    let d : Decl := .leaf ⟨"ID", .int, "-", "id", false, false⟩ (.leaf ⟨"Name", .string, "", "name", false, false⟩ .nil)
+    (parseDecl true d).prioritized = none ∧ (parseDecl true d).primaryFields = [] ∧
+    returningList true (parseDecl true d) = none ∧
+    insertColsA true (parseDecl true d) (fun _ => false) = ["name"] ∧
+    (parseDecl true d).dbNames = ["name"] := by decide
+
+/-- F28 on the tree under check (regenerated fact `Gen.priorityNeedsColumn`, extract/gen_c03_schema.go; the `attrs`
+    correspondence suite judges on every run that the code behaves like the transcription the fact selects): EITHER the
+    conventional-key block demands a column and the prioritized primary field of every schema has one, OR it does not and
+    the witness of finding F28 gets a key without column that Create asks back as RETURNING `` -/
+theorem C03_ignored_id_current_tree :
+    (Gen.priorityNeedsColumn = true ∧
+      ∀ (fs0 : List AField) (i : Nat), (finish Gen.priorityNeedsColumn fs0).prioritized = some i →
+        ∃ f, nth? (finish Gen.priorityNeedsColumn fs0).fields i = some f ∧ f.dbName ≠ "") ∨
+    (Gen.priorityNeedsColumn = false ∧
+      let d : Decl := .leaf ⟨"ID", .int, "-", "id", false, false⟩ (.leaf ⟨"Name", .string, "", "name", false, false⟩ .nil)
+      (parseDecl Gen.priorityNeedsColumn d).prioritized = some 0 ∧
+      returningList true (parseDecl Gen.priorityNeedsColumn d) = some [""]) := by
+  cases hg : Gen.priorityNeedsColumn with
+  | true => exact Or.inl ⟨rfl, fun fs0 i h => C03_prioritized_key_has_column fs0 i h⟩
+  | false => exact Or.inr ⟨rfl, by decide⟩
 
 /-- EVERY COLUMN THE DATABASE FILLS IS READ BACK — partial: for every declaration, a column-backed field with a default
     either is in `FieldsWithDefaultDBValue` (asked back with RETURNING) or has a LITERAL default and the create
     permission (gorm writes the literal itself, Model.Scan section x) — provided no field combines a literal default with
     a MISSING create permission (the negation of finding F27's pattern). -/
-theorem C03_default_column_read_back_partial (d : Decl) (i : Nat) (f : AField)
-    (hf : nth? (parseDecl d).fields i = some f) (htyped : f.typed = true) (hdef : f.hasDefault = true)
+theorem C03_default_column_read_back_partial (k : Bool) (d : Decl) (i : Nat) (f : AField)
+    (hf : nth? (parseDecl k d).fields i = some f) (htyped : f.typed = true) (hdef : f.hasDefault = true)
     (hno27 : f.defaultIface.isSome = true → f.creatable = true) :
-    i ∈ (parseDecl d).withDefaultDB ∨ (f.defaultIface.isSome = true ∧ f.creatable = true) := by
+    i ∈ (parseDecl k d).withDefaultDB ∨ (f.defaultIface.isSome = true ∧ f.creatable = true) := by
   cases hi : f.defaultIface with
-  | none => exact Or.inl (C03_db_default_returned_any_permission d i f hf htyped hdef hi).1
+  | none => exact Or.inl (C03_db_default_returned_any_permission k d i f hf htyped hdef hi).1
   | some v => exact Or.inr ⟨rfl, hno27 (by rw [hi]; rfl)⟩
 
 /-- finding F27 (reproduced on the unchanged tree): `V int64 gorm:"->;default:42"` — the literal default makes `V` no
     member of `FieldsWithDefaultDBValue`, the missing create permission keeps it out of the INSERT (struct and slice, zero
     or not): the database applies DEFAULT 42 to the row, Create neither writes 42 into the record nor asks the column
     back, the in-memory record keeps 0. -/
-theorem C03_readonly_literal_default_counterexample :
+theorem C03_readonly_literal_default_counterexample (k : Bool) :
     let d : Decl := .leaf ⟨"ID", .uint, "", "id", false, false⟩
       (.leaf ⟨"V", .int, "->;default:42", "v", false, false⟩ (.leaf ⟨"Payload", .string, "", "payload", false, false⟩ .nil))
-    returningList true (parseDecl d) = some ["id"] ∧
-    insertColsA true (parseDecl d) (fun _ => false) = ["payload"] ∧
-    insertColsA false (parseDecl d) (fun _ => true) = ["payload", "id"] ∧
-    ((owner? (parseDecl d) "v").map (fun f => (f.typed, f.readable, f.creatable, f.hasDefault, f.defaultIface))) =
-      some (true, true, false, true, some (.int 42)) := by decide
+    returningList true (parseDecl k d) = some ["id"] ∧
+    insertColsA true (parseDecl k d) (fun _ => false) = ["payload"] ∧
+    insertColsA false (parseDecl k d) (fun _ => true) = ["payload", "id"] ∧
+    ((owner? (parseDecl k d) "v").map (fun f => (f.typed, f.readable, f.creatable, f.hasDefault, f.defaultIface))) =
+      some (true, true, false, true, some (.int 42)) := by cases k <;> decide
 
 /-- non-vacuity of the partial theorem / what the repair direction looks like: with a DB-EXPRESSION default the same
     read-only field IS asked back -/
-example :
+example (k : Bool) :
     let d : Decl := .leaf ⟨"ID", .uint, "", "id", false, false⟩ (.leaf ⟨"V", .int, "->;default:(abs(-7))", "v", false, false⟩ .nil)
-    returningList true (parseDecl d) = some ["v", "id"] := by decide
+    returningList true (parseDecl k d) = some ["v", "id"] := by cases k <;> decide
 
 /-- tag parsing details the attributes depend on: keys are case-insensitive, `\;` escapes the separator, a bare key is
     its own value, `primaryKey:false` is no key, the `<-` value is matched case-sensitively -/
